@@ -462,9 +462,27 @@ class HistGen:
     def make_intent(self):
         w, rng = self.w, self.rng
         led = w.ledger
-        kind = rng.choice(["swap", "swap", "route", "provide"])
+        kind = rng.choice(["swap", "swap", "route", "provide", "swap", "swap", "route", "provide", "drain"])
         actor = rng.choice(["trader1", "trader2", "lp1"])
         delay = rng.choice([0, 1, 1, 2, 3])
+        if kind == "drain":
+            # full exit of every holder of one pair (supply falls to the reserved unit), optional donation,
+            # then a fresh provision by a whitelisted / other actor
+            cands = [p for p in w.pairs if p.supply(led) > 1]
+            if not cands:
+                return None
+            p = rng.choice(cands)
+            n = 0
+            for a in ACTORS:
+                if led.get(a, p.lp) > 0:
+                    self.pending.append({"kind": "withdraw_all", "actor": a, "pair": p, "due": self.count + n, "born": self.count})
+                    n += 1
+            if rng.random() < 0.5:
+                self.pending.append({"kind": "donate_small", "actor": "attacker", "pair": p, "due": self.count + n, "born": self.count})
+                n += 1
+            who = rng.choice(p.whitelist) if p.whitelist and rng.random() < 0.8 else rng.choice(ACTIVE)
+            self.pending.append({"kind": "reprovide", "actor": who, "pair": p, "due": self.count + n + rng.choice([0, 1]), "born": self.count})
+            return True
         if kind == "swap":
             p = self.pair(funded=True)
             i = rng.randrange(2)
@@ -498,6 +516,25 @@ class HistGen:
     def fire_intent(self, it):
         w, rng = self.w, self.rng
         stale = self.count - it["born"]
+        if it["kind"] == "withdraw_all":
+            bal = w.ledger.get(it["actor"], it["pair"].lp)
+            op = w.op_withdraw(it["actor"], it["pair"], max(1, bal))
+            op["sem"]["after"] = "drain"
+            return op, [(it["pair"].addr, {"pool": {}})]
+        if it["kind"] == "donate_small":
+            p = it["pair"]
+            return w.op_donate(it["actor"], p.addr, rng.choice(p.assets), rng.choice([1, 1000, 10 ** 6, 1 << w.scale_bits])), []
+        if it["kind"] == "reprovide":
+            p = it["pair"]
+            sb = w.scale_bits
+            d0 = max(1, rng.getrandbits(max(1, sb + rng.randrange(-4, 5))))
+            d1 = max(1, rng.getrandbits(max(1, sb + rng.randrange(-4, 5))))
+            r0, r1 = p.reserves(w.ledger)
+            if r0 > 0 and r1 > 0 and rng.random() < 0.5:
+                d1 = max(1, d0 * r1 // r0)
+            op = w.op_provide(it["actor"], p, [d0, d1], receiver=rng.choice([None, None, "recv"]))
+            op["sem"]["after_drain"] = True
+            return op, [(p.addr, {"pool": {}})]
         if it["kind"] == "swap":
             p, offer, amount = it["pair"], it["offer"], it["amount"]
             i = p.idx(offer)
